@@ -656,7 +656,7 @@ class Array(metaclass=MetaArray):
             arr = self._buffer.to_nplike(
                 self._offset + self._data_offset, self._itemtype._dtype, cshape
             ).transpose(np.argsort(self._order))
-            assert arr.strides == tuple(self._strides)
+            assert 0 in arr.shape or arr.strides == tuple(self._strides)
             return arr
         else:
             raise NotImplementedError
@@ -668,7 +668,7 @@ class Array(metaclass=MetaArray):
             arr = self._buffer.to_nparray(
                 self._offset + self._data_offset, self._itemtype._dtype, cshape
             ).transpose(np.argsort(self._order))
-            assert arr.strides == tuple(self._strides)
+            assert 0 in arr.shape or arr.strides == tuple(self._strides)
             return arr
         else:
             raise NotImplementedError
